@@ -777,6 +777,22 @@ fn run_op(tx: &mut Transaction, op: &Value) -> Value {
                     s6[0] = tx.clone().sign(&keys[signers[0]], flag, idx, &locking, value).unwrap().to_hex().unwrap();
                     expect("signature over the script including the part before the executed code separator", &with_unlock(&tx, &unlock_asm(&s6)), false);
                 }
+                // a byte that looks like a flag squeezed between a maximal-length DER signature and the real flag byte
+                for kq in 1u8..60 {
+                    let eph = PrivateKey::from_bytes(&[kq; 32]).unwrap();
+                    if let Ok(sg) = tx.clone().sign_with_k(&keys[signers[0]], &eph, flag, idx, &subscript, value) {
+                        let raw = sg.to_bytes().unwrap();
+                        if raw.len() == 72 {
+                            let mut padded = raw[..71].to_vec();
+                            padded.push(0x01);
+                            padded.push(flag_byte);
+                            let mut s9 = sigs.clone();
+                            s9[0] = hex::encode(&padded);
+                            expect("an extra flag-like byte between the DER signature and the flag byte", &with_unlock(&tx, &unlock_asm(&s9)), false);
+                            break;
+                        }
+                    }
+                }
                 if kind == "multisig" && m >= 2 {
                     let mut s7 = sigs.clone();
                     s7.reverse();
